@@ -397,7 +397,7 @@ Proof.
   apply body_ok_intro. intros d f W Hf Hs. cbn [w_body w_delete w_store] in *. rewrite (Hs eq_refl). unfold body_delete.
   destruct (put (c_codec c) k) as [dbk raw|] eqn:Pk; [|apply out_ok_raise, W].
   rewrite bridge_del_select. destruct (filter _ (rows d)) as [|r0 rs] eqn:F.
-  - destruct di; [apply out_ok_raise, W|apply unchanged_ok; auto].
+  - apply out_ok_raise, W.
   - apply filter_cons_in in F as [I0 _]. apply (delete_one_ok d _ r0); auto.
     + intros x. apply bridge_del_delete.
     + cbn. rewrite !app_nil_r. apply Permutation_refl.
